@@ -190,17 +190,25 @@ def generate():
                     def suggested_fixed(self): return list(fixed)
                 class PPdf: config = PCfg()
                 outs = []
-                for explicit in (True, False):       # flags passed by the caller / taken from the model's suggestion inside hypotest
+                class QCfg(PCfg):
+                    def suggested_fixed(self): return [False, False, False]
+                class QPdf: config = QCfg()
+                # the check called directly / `hypotest` with the flags coming from the model's suggestion / `hypotest` with the flags passed
+                # by the caller (the model suggesting none)
+                for mode in ('direct', 'suggested', 'caller'):
                     try:
-                        if explicit: ocheck(PPdf(), [1.0], [1.0] * 3, [(0.0, 10.0)] * 3, fixed)
+                        if mode == 'direct': ocheck(PPdf(), [1.0], [1.0] * 3, [(0.0, 10.0)] * 3, fixed)
                         else:
                             infmod.utils.create_calculator = lambda *a, **k: FakeCalc()
-                            try: infmod.hypotest(1.0, [1.0], PPdf())
+                            try:
+                                if mode == 'suggested': infmod.hypotest(1.0, [1.0], PPdf())
+                                else: infmod.hypotest(1.0, [1.0], QPdf(), fixed_params=fixed)
                             finally: infmod.utils.create_calculator = ocreate
                         outs.append('ok')
                     except Exception as e:  # noqa
                         outs.append(type(e).__name__)
-                assert outs[0] == outs[1], (poi, fixed, outs)
+                if not (outs[0] == outs[1] == outs[2]):
+                    raise RuntimeError(f'hypotest prerequisites differ between the direct check, suggested flags and caller flags: poi={poi} fixed={fixed} -> {outs}')
                 prereq_rows.append((poi, fixed, outs[0]))
         B = lambda b: 'true' if b else 'false'
         L = lambda it: '[' + ', '.join('[' + ', '.join(f'"{n}"' for n in i) + ']' for i in it) + ']'
